@@ -4,11 +4,11 @@ SPEC = {'level': 'exploration',
                  'the first message of every direction is "version" (protocol rule; the v2 responder recognises a v1 peer by it)',
                  'v2 tamper oracle assumes AEAD forgery / accidental garbage-terminator match probability (<= 2^-96) is nil',
                  'ciphertext equality with an independent BIP324 implementation is checked by a separate Python stage, not here'],
- 'stages': [gen('vh_c32', 'c32_bidirectional', 5000, 90000, min_cases_quick=2000,
+ 'stages': [gen('vh_c32', 'c32_bidirectional', 5000, 90000, min_cases_quick=1000,
                 floors={'mode-v1v1': 0.15, 'mode-v2v2': 0.15, 'mode-v1v2-fallback': 0.15, 'fragmented-message': 0.4, 'interleaved-directions': 0.05,
                         'rekey-crossed': 0.01, 'tail-1byte': 0.05, 'type-shortid': 0.3, 'type-random': 0.1},
                 rule='message plans both ways over v1/v2/v1-fallback transports, generated fragmentation + interleaving; non-trivial = both directions, >=3 msgs, >=1 message split over >=2 reads'),
-            gen('vh_c32', 'c32_tamper', 30000, 500000, min_cases_quick=8000,
+            gen('vh_c32', 'c32_tamper', 30000, 500000, min_cases_quick=4000,
                 floors={'v2-tamper-key': 0.01, 'v2-tamper-garbage': 0.01, 'v2-tamper-terminator': 0.01, 'v2-tamper-pkt-length': 0.03, 'v2-tamper-pkt-tag': 0.03,
                         'v2-tamper-pkt-ciphertext': 0.02, 'v2-tampered-packet-decoy': 0.02, 'v2-tampered-packet-app': 0.05, 'v2-tamper-none': 0.01,
                         'v2-tamper-after-rekey': 0.002, 'v1-tamper-checksum-last-byte': 0.01, 'v1-tamper-payload': 0.01, 'v1-flagged-message': 0.05},
